@@ -499,10 +499,13 @@ class Exec:
         free = [(n, st.env[n]) for n in names if n not in tnames and isinstance(st.env[n], V) and st.env[n].ty is not NONE]
         free = [(n, self._prenarrow(v, st, comp)) for n, v in free]
         import hashlib as _h
+        # the declared result type (if any) is part of the identity: the same text with another element type is another function
+        # (for list comprehensions the RESULT TYPE is part of the identity - the same text with another element type is another
+        #  function - and is only known after the element has been typed, see below)
         sig = "%s|%s|%s|%s|%s|%s|%s" % (mode, ast.unparse(comp.elt), ast.unparse(g.target), [ast.unparse(c) for c in g.ifs],
                                         it.ty.name, [(n, v.ty.name) for n, v in free], view)
         fname = "comp_" + _h.md5(sig.encode()).hexdigest()[:10]
-        if fname in _comp_cache:
+        if mode != "list" and fname in _comp_cache:
             f, rty = _comp_cache[fname]
             return V(rty, f(*([it.t] + [v.t for _, v in free])))
         params = [z3.Const(fname + "_it", it.ty.sort())] + [z3.Const(fname + "_" + n, v.ty.sort()) for n, v in free]
@@ -554,6 +557,25 @@ class Exec:
                 if rty is None:
                     raise Unsupported("list comprehension #%s at line %d needs a declared type (comp_types)"
                                       % (getattr(comp, "_comp_no", "?"), comp.lineno))
+                fkey = fname + "_" + _h.md5(rty.name.encode()).hexdigest()[:6]
+                if fkey in _comp_cache:
+                    f, rty = _comp_cache[fkey]
+                    return V(rty, f(*([it.t] + [v.t for _, v in free])))
+                params = [z3.Const(fkey + "_it", it.ty.sort())] + [z3.Const(fkey + "_" + n, v.ty.sort()) for n, v in free]
+                # re-translate the body over the parameters of the final name (cheap; keeps symbol names unique per function)
+                sub = State({n: V(v.ty, p) for (n, v), p in zip(free, params[1:])})
+                for n, v in st.env.items():
+                    if n not in sub.env and not isinstance(v, V):
+                        sub.env[n] = v
+                pv = V(it.ty, params[0])
+                nonempty, hd, tl = iter_head_tail(DictItems(pv, view) if view else pv)
+                if isinstance(tl, DictItems):
+                    tl = tl.d
+                self.bind_target(g.target, hd, sub)
+                conds = [truthy(self.ev(c, sub)) for c in g.ifs]
+                cond = z3.And(*conds) if conds else z3.BoolVal(True)
+                elt = self.ev(comp.elt, sub)
+                fname = fkey
                 f = rec_function(fname, *([p.sort() for p in params] + [rty.sort()]))
                 rec = f(*([tl.t] + params[1:]))
                 e = coerce(elt, rty.elem).t
@@ -819,6 +841,16 @@ class Exec:
                 target = self.getattr_(recv, f.attr, st, node)
                 return self.call_value(target, node, st)
             return self.call_method(recv, recv_node, f.attr, node, st)
+        if isinstance(f, ast.Name) and f.id == "filter" and "filter" not in st.env and len(node.args) == 2 and not node.keywords \
+                and isinstance(node.args[0], ast.Lambda) and len(node.args[0].args.args) == 1 and not node.args[0].args.defaults:
+            # filter(lambda x: C, xs)  ==  [x for x in xs if C]
+            lam = node.args[0]
+            name = lam.args.args[0].arg
+            comp = ast.ListComp(elt=ast.Name(id=name, ctx=ast.Load()), generators=[ast.comprehension(
+                target=ast.Name(id=name, ctx=ast.Store()), iter=node.args[1], ifs=[lam.body], is_async=0)])
+            ast.copy_location(comp, node)
+            ast.fix_missing_locations(comp)
+            return self.ev(comp, st)
         if isinstance(f, ast.Name) and f.id == "map" and "map" not in st.env and len(node.args) == 2 and not node.keywords \
                 and isinstance(node.args[0], ast.Lambda) and len(node.args[0].args.args) == 1 and not node.args[0].args.defaults:
             # map(lambda x: E, xs)  ==  [E for x in xs]   (same generated fold function as that comprehension)
